@@ -1120,6 +1120,10 @@ def mutate_streams(rng, quick):
             ('{"method":"org.example.a.Run","parameters":{"script":%s}}', "script"),
             ('{"method":"org.example.a.Run","parameters":{"script":["r"],"tag":%s}}', "tag"),
             ('{"method":"org.example.a.Run","parameters":{"script":["r"]},"unknown":%s}', "unknown"),
+            # the built-in interface's own parameters (decoded by the runtime, not by an interface implementation)
+            ('{"method":"org.varlink.service.GetInterfaceDescription","parameters":%s}', "descr-parameters"),
+            ('{"method":"org.varlink.service.GetInterfaceDescription","parameters":{"interface":%s}}', "descr-interface"),
+            ('{"method":"org.varlink.service.GetInterfaceDescription","parameters":{"interface":"org.example.a","x":%s}}', "descr-extra"),
             ('%s', "toplevel")]
     ok_after = enc(make("ok", "-", "after"))
     ok_before = enc(make("ok", "-", "before"))
@@ -1219,6 +1223,21 @@ def c06(ck):
                 ck.count("malformed_frame_seen")
                 break
             alone = impl[frame_ids[fr] + "_alone"]
+            # wrong member types inside the built-in method's parameters (independent reading: `parameters` is present and is
+            # a scalar, or an object without a string `interface`): a malformed message - no reply for it, connection closed
+            try:
+                jv = json.loads(fr.decode("utf-8"))
+            except Exception:
+                jv = None
+            if isinstance(jv, dict) and jv.get("method") == "org.varlink.service.GetInterfaceDescription" and jv.get("parameters") is not None \
+                    and not any(jv.get(k) is True for k in ("oneway",)):
+                pv = jv["parameters"]
+                wrong = isinstance(pv, (bool, int, float, str)) or (isinstance(pv, dict) and not isinstance(pv.get("interface"), str))
+                if wrong and (out_of(alone) != b"" or fields(alone).get("closed") != "1"):
+                    if not any(x.get("frame") == fr.decode("utf-8", "replace")[:300] for x in ck.failures):
+                        ck.failures.append({"what": "a message with wrong member types in the built-in method's parameters was answered / did not close the connection",
+                                            "frame": fr.decode("utf-8", "replace")[:300], "replies": out_of(alone).decode("utf-8", "replace")[:300],
+                                            "closed": fields(alone).get("closed")})
             exp += canon_reply_stream(out_of(alone))
             if fields(alone).get("closed") == "1" or fields(alone).get("upg") != "none":
                 closed = True
